@@ -126,6 +126,10 @@ pub struct Case {
     /// WireGen) is requested as a SignWithdrawal message through the protocol handler
     #[serde(default)]
     pub wire: Option<WireGen>,
+    /// API group: the signer runs with the validator factory vlsd uses by default
+    /// (OnchainValidatorFactory around the simple validator with this case's policy)
+    #[serde(default)]
+    pub onchain: bool,
 }
 
 /// Input of a wire-group transaction, as CLN's / LDK's hsmd client describes it.
@@ -939,12 +943,12 @@ impl Prop for C08 {
             prop::bool::weighted(0.3),
             prop::bool::weighted(0.03),
             prop_oneof![9 => Just(None), 1 => (1u8..4, 24u8..32).prop_map(Some)],
-            (prop_oneof![3 => Just(0u8), 1 => Just(1u8), 1 => Just(2u8)], prop_oneof![5 => Just(0u8), 2 => 1u8..7], prop_oneof![7 => Just(None), 2 => wire_strat().prop_map(Some)]),
+            (prop_oneof![3 => Just(0u8), 1 => Just(1u8), 1 => Just(2u8)], prop_oneof![5 => Just(0u8), 2 => 1u8..7], prop_oneof![7 => Just(None), 2 => wire_strat().prop_map(Some)], prop::bool::weighted(0.4)),
         )
-            .prop_map(|(version, inputs, outputs, chans, fee, fee_velocity_sat, max_feerate, repeats, via_approver, big_tx, storm, (restart_before, allow_edit, wire))| {
+            .prop_map(|(version, inputs, outputs, chans, fee, fee_velocity_sat, max_feerate, repeats, via_approver, big_tx, storm, (restart_before, allow_edit, wire, onchain))| {
                 // a storm is only interesting with a finite fee velocity limit
                 let fee_velocity_sat = if storm.is_some() { fee_velocity_sat.or(Some(2500)) } else { fee_velocity_sat };
-                Case { version, inputs, outputs, chans, fee, fee_velocity_sat, max_feerate, repeats, via_approver, big_tx, storm, restart_before, allow_edit, wire }
+                Case { version, inputs, outputs, chans, fee, fee_velocity_sat, max_feerate, repeats, via_approver, big_tx, storm, restart_before, allow_edit, onchain: onchain && wire.is_none(), wire }
             })
             .boxed()
     }
@@ -960,7 +964,8 @@ impl Prop for C08 {
             Some(l) => VelocityControlSpec { limit_msat: l as u64 * 1000, interval_type: VelocityControlIntervalType::Daily },
             None => VelocityControlSpec::UNLIMITED,
         };
-        let mut w = World::new(cfg);
+        let mut w = if case.onchain { World::new_onchain(cfg) } else { World::new(cfg) };
+        st.class(if case.onchain { "onchain-factory" } else { "simple-factory" });
         let secp = w.secp.clone();
         let wxpub = w.node.get_account_extended_pubkey();
         let wallet_scripts = |idx: u32| -> [ScriptBuf; 4] {
